@@ -2175,6 +2175,7 @@ impl Kanata {
             && self.layout.b().last_press_tracker.tap_hold_timeout == 0
             && self.layout.b().oneshot.keys.is_empty()
             && self.layout.b().oneshot.pause_input_processing_ticks == 0
+            && self.layout.b().oneshot.ticks_to_ignore_events == 0
             && !self.keystate_changed_after_read
             && self.layout.b().active_sequences.is_empty()
             && self.layout.b().tap_dance_eager.is_none()
